@@ -32,6 +32,7 @@ _S = {}
 SCHEMA = [
     'create module default',
     'create scalar type default::MyStr extending str',
+    'create scalar type default::MyStr2 extending default::MyStr',
     'create scalar type default::Color extending enum<Red, Green, Blue>',
     'create type default::T { create required property name -> str; '
     'create property n -> int64; create multi property tags -> str; '
@@ -62,10 +63,11 @@ def S():
 
 # ------------------------------------------------------------------ term -> query
 LIT = {'str': "'s'", 'int64': '1', 'bool': 'true', 'float64': '1.5',
-       'userscalar': "<default::MyStr>'m'", 'enum': "default::Color.Red",
+       'userscalar': "<default::MyStr>'m'",
+       'userscalar2': "<default::MyStr2>'m'", 'enum': "default::Color.Red",
        'uuid': "<uuid>'aaaaaaaa-aaaa-aaaa-aaaa-aaaaaaaaaaaa'", 'json': "<json>1"}
 SCALAR_NAME = {'str': 'std::str', 'int64': 'std::int64', 'bool': 'std::bool',
-               'float64': 'std::float64', 'userscalar': 'default::MyStr',
+               'float64': 'std::float64', 'userscalar': 'default::MyStr', 'userscalar2': 'default::MyStr2',
                'enum': 'default::Color', 'uuid': 'std::uuid', 'json': 'std::json'}
 
 
@@ -86,10 +88,21 @@ def expr(t):
     if k == 'shape_multi':
         return (f'(select default::T {{ name, c := (for i in {{1, 2}} union '
                 f'{expr(t[1])}) }} limit 1)')
+    if k == 'linkshape':
+        body = {'with': 'friend: { name, @weight }',
+                'without': 'friend: { name }',
+                'both': 'friend: { name, @weight }, others := .friend { name }'}[t[1]]
+        return f'(select default::T {{ name, {body} }} limit 1)'
     if k == 'free':
         return f'{{ x := {expr(t[1])}, y := {expr(t[2])} }}' if False else \
             f'(select {{ x := {expr(t[1])}, y := {expr(t[2])} }})'
     raise ValueError(t)
+
+
+def _card1(t):
+    # `(select T {...} limit 1)` may be empty; every other term is a singleton
+    return 'AT_MOST_ONE' if t[0] in ('shape_computed', 'shape_multi', 'linkshape') \
+        else 'ONE'
 
 
 def expected(t):
@@ -98,6 +111,11 @@ def expected(t):
     if k == 'S':
         if t[1] == 'enum':
             return ('enum', 'default::Color', ('Red', 'Green', 'Blue'))
+        # a schema-defined scalar lists its ancestors down to the fundamental type
+        if t[1] == 'userscalar':
+            return ('scalar', 'default::MyStr', ('std::str',))
+        if t[1] == 'userscalar2':
+            return ('scalar', 'default::MyStr2', ('default::MyStr', 'std::str'))
         return ('scalar', SCALAR_NAME[t[1]])
     if k == 'tuple':
         return ('tuple', (expected(t[1]), expected(t[2])))
@@ -109,13 +127,24 @@ def expected(t):
         return ('range', ('scalar', 'std::int64'))
     if k in ('shape_computed', 'shape_multi'):
         # a FOR over a non-empty literal set is inferred AT_LEAST_ONE
+        # (inside a shape of T, a nested `select T ... limit 1` is bound to
+        # the subject by path factoring: it is a singleton as well)
         card = 'AT_LEAST_ONE' if k == 'shape_multi' else 'ONE'
         return ('shape', 'default::T',
                 (('name', 'ONE', ('scalar', 'std::str')),
                  ('c', card, expected(t[1]))))
+    if k == 'linkshape':
+        fr = ('shape', 'default::T', (('name', 'ONE', ('scalar', 'std::str')),))
+        frw = ('shape', 'default::T', (('name', 'ONE', ('scalar', 'std::str')),
+                                       ('@weight', 'AT_MOST_ONE', ('scalar', 'std::int64'))))
+        els = [('name', 'ONE', ('scalar', 'std::str')),
+               ('friend', 'AT_MOST_ONE', frw if t[1] != 'without' else fr)]
+        if t[1] == 'both':
+            els.append(('others', 'AT_MOST_ONE', fr))
+        return ('shape', 'default::T', tuple(els))
     if k == 'free':
         return ('shape', 'std::FreeObject',
-                (('x', 'ONE', expected(t[1])), ('y', 'ONE', expected(t[2]))))
+                (('x', _card1(t[1]), expected(t[1])), ('y', _card1(t[2]), expected(t[2]))))
     raise ValueError(t)
 
 
@@ -262,6 +291,9 @@ def describe(blocks, idx, want_names=True):
         # a multi element of a shape is sent as a set of its element type
         return describe(blocks, b['refs'][0])
     if tag == 3:
+        if not b['name'].startswith('std::'):
+            return ('scalar', b['name'],
+                    tuple(blocks[a]['name'] for a in b['ancestors']))
         return ('scalar', b['name'])
     if tag == 7:
         return ('enum', b['name'], tuple(b['members']))
@@ -277,7 +309,8 @@ def describe(blocks, idx, want_names=True):
         return ('multirange', describe(blocks, b['type']))
     if tag == 1:
         tname = 'std::FreeObject' if b['ephemeral'] else blocks[b['type']]['name']
-        els = tuple((e['name'], e['card'], describe(blocks, e['type']))
+        els = tuple((('@' if e['flags'] & 2 else '') + e['name'], e['card'],
+                     describe(blocks, e['type']))
                     for e in b['elements'] if not (e['flags'] & 1))
         return ('shape', tname, els)
     if tag == 10:
